@@ -24,13 +24,21 @@ class PriceStub(object):
     def get_asset_latest_ask_price(self, dt, asset):
         return self.ask.get(asset, np.nan)
 
+    fair = False     # phase 6 trades through the broker: then bid = mid = ask, so that marking does not move the equity
+
     def get_asset_latest_bid_price(self, dt, asset):
+        if self.fair:
+            return self.ask.get(asset, np.nan)
         return 0.0   # a sizer that reads the bid sizes against nothing
 
     def get_asset_latest_bid_ask_price(self, dt, asset):
+        if self.fair:
+            return (self.ask.get(asset, np.nan), self.ask.get(asset, np.nan))
         return (0.0, self.ask.get(asset, np.nan))
 
     def get_asset_latest_mid_price(self, dt, asset):
+        if self.fair:
+            return self.ask.get(asset, np.nan)
         return self.ask.get(asset, np.nan) / 2.0
 
 
@@ -48,7 +56,7 @@ def make_broker(equity, rate, dh):
     return b
 
 
-def check_call(sizer, dh, equity, buf, rate, ws, ps):
+def check_call(sizer, dh, equity, buf, rate, ws, ps, shared=None):
     """One real call; returns (fails, ambiguous, outcome)."""
     n = len(ws)
     assets = ASSETS[:n] if n <= len(ASSETS) else ['EQ:W%02d' % i for i in range(n)]
@@ -57,7 +65,13 @@ def check_call(sizer, dh, equity, buf, rate, ws, ps):
     weights = {a: (int(fw(w)) if fw(w).denominator == 1 else float(fw(w))) for a, w in zip(assets, ws)}
     case = {'kind': 'size', 'equity': str(equity), 'buffer': buf, 'rate': rate, 'weights': list(ws), 'asks': list(ps)}
     try:
-        got = sizer(DT, dict(weights))
+        if shared is not None:
+            # the caller keeps ONE weights dictionary and edits it in place between calls
+            shared.clear()
+            shared.update(weights)
+            got = sizer(DT, shared)
+        else:
+            got = sizer(DT, dict(weights))
     except Exception as e:  # noqa
         return [{'clause': 'C10.unexpected_error', 'detail': {'error': repr(e)}, 'case': case}], 0, None
     fails, amb = [], 0
@@ -120,13 +134,14 @@ def group(item):
     half = fw(equity) / 2
     plan += [('half', ps, ws) for ws in itertools.product(WEIGHTS[2:5], repeat=len(ps))]
     withdrawn = False
+    live = {}
     for eq, prices, ws in plan:
         if eq == 'half':
             if not withdrawn:
                 broker.withdraw_funds_from_portfolio('p', float(half))
                 withdrawn = True
             eq = half
-        f, a, oc = check_call(sizer, dh, eq, buf, rate, ws, prices)
+        f, a, oc = check_call(sizer, dh, eq, buf, rate, ws, prices, shared=live if prices is ps2 else None)
         n += 1
         amb += a
         viols += f
@@ -150,6 +165,33 @@ def group(item):
                 viols += [dict(x, case=dict(x['case'], buffer_at_construction=buf)) for x in f]
             if viols:
                 break
+    # phase 6: the portfolio is INVESTED - the target just computed is traded through the broker (real fills, real
+    # commissions) and the same weights are sized again at unchanged prices, as the second rebalance of a quiet week does
+    if not viols and float(fw(equity)) >= 100:
+        from qstrader.execution.order import Order
+        dt_open = pd.Timestamp('2020-03-03 14:30:00', tz='UTC')
+        dh.fair = True
+        cur_buf = '0.05' if buf != '0.05' else '0'
+        sizer.cash_buffer_percentage = float(fw(cur_buf))
+        assets = ASSETS[:len(ps)]
+        for ws in list(itertools.product(WEIGHTS[2:5], repeat=len(ps)))[:9]:
+            if viols:
+                break
+            for rnd in range(3):
+                eq_now = Fraction(repr(float(broker.get_portfolio_total_equity('p'))))
+                f, a, oc = check_call(sizer, dh, eq_now, cur_buf, rate, ws, ps)
+                n += 1
+                amb += a
+                viols += [dict(x, case=dict(x['case'], invested_round=rnd)) for x in f]
+                if viols or oc is None:
+                    break
+                held = {k: int(v['quantity']) for k, v in broker.get_portfolio_as_dict('p').items()}
+                for asset, q in zip(assets, oc):
+                    d = int(q) - held.get(asset, 0)
+                    if d:
+                        broker.submit_order('p', Order(dt_open, asset, d))
+                broker.update(dt_open)
+        dh.fair = False
     return {'viols': viols[:10], 'execs': n, 'evals': n, 'ambiguous': amb, 'nontrivial': nz > 0,
             'outcome': (item, tuple(sorted(outs))), 'counters': {'calls_with_nonzero_target': nz},
             'sample': {'equity': equity, 'buffer': buf, 'fee_rate': rate, 'asks': list(ps),
